@@ -48,6 +48,10 @@ func (fr *Frame) moveLocalsToShared() {
 	if fr.fn == nil || fr.shared == nil || len(fr.shared.values) == 0 {
 		return
 	}
+	// invokeClosure passes the closure's Shared, which other threads may be using
+	if fr.shared.Lock() {
+		defer fr.shared.Unlock()
+	}
 	localNames := fr.fn.Names[:fr.fn.Nstack]
 	sharedNames := fr.fn.Names[fr.fn.Nstack:]
 	for j, sname := range sharedNames {
@@ -109,6 +113,14 @@ func (fr *Frame) getSlot(idx int) Value {
 		return fr.locals[idx]
 	}
 	return fr.getSharedSlot(idx)
+}
+
+// sharedValues returns a snapshot of the shared slots (used for call stacks)
+func (fr *Frame) sharedValues() []Value {
+	if fr.shared.Lock() {
+		defer fr.shared.Unlock()
+	}
+	return append([]Value(nil), fr.shared.values...)
 }
 
 // getSharedSlot is split off so getSlot is inlined
